@@ -13,7 +13,7 @@ META = {
     "rule": "generated queries (C02 generator, function/method/mixed form) with 0-8 MetaData wrappers inserted at random: "
     "around the dataset, between operators, adjacent stacks of 2-4, inside lambda bodies around nested sequences and inside "
     "operator arguments; dictionaries empty / non-empty (unique token per wrapper, hostile strings), occasionally a non-dict "
-    "literal; monitors on extract_metadata and remove_empty_metadata: independent reference result (struct_eq), metadata list "
+    "literal, half of the inputs with _q_metadata annotations on call nodes; monitors on extract_metadata and remove_empty_metadata: independent reference result (struct_eq), metadata list "
     "as multiset + outer-before-inner partial order, argument-unchanged snapshot for remove_empty_metadata; distinct by dump; "
     "non-trivial = >= 2 wrappers of which one is empty and one sits inside a lambda body or an adjacent stack",
     "assumptions": ["MetaData wrappers are well-formed two-argument calls with a literal second argument"],
